@@ -353,6 +353,10 @@ func judgeVerdict(entry string, got bool, k *dns.DNSKEY, sig *dns.RRSIG, rrs []d
 		if refWide {
 			return "ok", "wide-exponent-accept"
 		}
+		if !dns.IsFqdn(k.Hdr.Name) && !dns.IsFqdn(sig.SignerName) && errors.Is(libErr, dns.ErrKey) {
+			// candidate finding (notes/C14.md): names that are not fully qualified never come off the wire
+			return "FAIL sig=" + entry + "/non-fqdn-key-owner-accepted", "permissive"
+		}
 		return fmt.Sprintf("FAIL sig=%s/more-permissive-than-reference lib=%s panic=%v wide=%v math=%v limits=%v", entry, errEnum(libErr), libPanic, wide, mathOK, inLimits), "permissive"
 	case !got && lib:
 		rs := strictReasons(k, sig, ws)
@@ -576,6 +580,8 @@ func execDSMatch(f []string) vlib.Res {
 	case !got && lib:
 		if dt == 5 {
 			tag = "stricter:ds-digest-5"
+		} else if kb, err := stdDecode(k.PublicKey); err == nil && len(kb) == 0 {
+			tag = "stricter:empty-key" // a DNSKEY without key material: ToDS hashes it, dsDigestMatches refuses it
 		} else {
 			or = fmt.Sprintf("FAIL sig=ds/match/stricter-unexplained dt=%d", dt)
 		}
@@ -628,7 +634,7 @@ func execVerifyDS(f []string) vlib.Res {
 			}
 			refAny = true
 			// pairs the documented narrowings do not touch
-			if sup && k.Protocol == 3 && k.Flags&256 != 0 {
+			if kb, err := stdDecode(k.PublicKey); sup && k.Protocol == 3 && k.Flags&256 != 0 && err == nil && len(kb) > 0 {
 				refPlain = true
 			}
 		}
@@ -775,6 +781,8 @@ func execBind(f []string) vlib.Res {
 	if judged {
 		or = "ok"
 		switch {
+		case own && !libPre && !dns.IsFqdn(k.Hdr.Name) && !dns.IsFqdn(sig.SignerName):
+			or = "FAIL sig=bind/non-fqdn-key-owner-accepted"
 		case own && !libPre:
 			or = "FAIL sig=bind/more-permissive-than-library lib=" + errEnum(libErr)
 		case !own && libPre:
